@@ -3,11 +3,15 @@ package c07
 import (
 	"encoding/xml"
 	"fmt"
+	"runtime"
 	"strings"
 	"sync"
+	"sync/atomic"
 
 	"mellium.im/xmlstream"
 	"mellium.im/xmpp"
+	"mellium.im/xmpp/mux"
+	"mellium.im/xmpp/stanza"
 
 	"mellium.im/xmpp/verifharness/core"
 	"mellium.im/xmpp/verifharness/sess"
@@ -20,22 +24,62 @@ import (
 // answered on its own session, once, with its own id and addressed to its own
 // sender: what one session uses to build its default reply is not shared with
 // the others.
+//
+// Every other such case serves all the sessions through ONE multiplexer value
+// (a server that has one ServeMux for all its clients) whose IQ handler answers
+// every second request itself: before it writes, it yields until a handler
+// call for another session has begun (or 300 yields have passed), so that the
+// calls of different sessions overlap inside the multiplexer.  The handler's
+// own reply must then be the only one for its request, on its own session.
 
 type multiSample struct {
 	Kind     string `json:"kind"`
+	Shared   bool   `json:"one_multiplexer_for_all_sessions,omitempty"`
 	Sessions int    `json:"sessions"`
 	Requests int    `json:"requests_per_session"`
 }
 
-func runMulti(c *core.Case) {
+func runMulti(c *core.Case, shared bool) {
 	r := c.Rand
 	n := 3 + r.Intn(2)
 	const m = 150
-	c.Sample(multiSample{Kind: "concurrent-sessions", Sessions: n, Requests: m})
+	c.Sample(multiSample{Kind: "concurrent-sessions", Shared: shared, Sessions: n, Requests: m})
 	c.Count("multi_session_cases", 1)
+	var handler xmpp.Handler = xmpp.HandlerFunc(func(xmlstream.TokenReadEncoder, *xml.StartElement) error { return nil })
+	var entered, overlapped int64
+	if shared {
+		c.Count("multi_session_cases_with_one_multiplexer", 1)
+		answer := func(iq stanza.IQ, t xmlstream.TokenReadEncoder, _ *xml.StartElement) error {
+			mine := atomic.AddInt64(&entered, 1)
+			if !strings.HasSuffix(iq.ID, "0") && !strings.HasSuffix(iq.ID, "2") && !strings.HasSuffix(iq.ID, "5") && !strings.HasSuffix(iq.ID, "7") {
+				return nil // left to the session
+			}
+			for y := 0; y < 300 && atomic.LoadInt64(&entered) == mine; y++ {
+				runtime.Gosched()
+			}
+			if atomic.LoadInt64(&entered) != mine {
+				atomic.AddInt64(&overlapped, 1)
+			}
+			_, err := xmlstream.Copy(t, xmlstream.Wrap(
+				xmlstream.Wrap(nil, xml.StartElement{Name: xml.Name{Space: "urn:c07:multi", Local: "answer"}}),
+				xml.StartElement{Name: xml.Name{Local: "iq"}, Attr: []xml.Attr{
+					{Name: xml.Name{Local: "type"}, Value: "result"},
+					{Name: xml.Name{Local: "id"}, Value: iq.ID},
+					{Name: xml.Name{Local: "to"}, Value: iq.From.String()},
+				}}))
+			return err
+		}
+		// one multiplexer per stream namespace would not be one value: the cases
+		// of this kind have client sessions only
+		c.Guard("mux.New", func() {
+			handler = mux.New(stanza.NSClient,
+				mux.IQFunc(stanza.GetIQ, xml.Name{Space: "urn:c07:multi", Local: "q"}, answer),
+				mux.IQFunc(stanza.SetIQ, xml.Name{Space: "urn:c07:multi", Local: "q"}, answer))
+		})
+	}
 	pairs := make([]*sess.Pair, n)
 	for k := range pairs {
-		p, err := sess.NewPair(sess.Opts{S2S: k%3 == 2})
+		p, err := sess.NewPair(sess.Opts{S2S: k%3 == 2 && !shared})
 		if err != nil {
 			c.Inconclusive("multi: cannot build session %d: %v", k, err)
 			return
@@ -63,7 +107,7 @@ func runMulti(c *core.Case) {
 			defer wg.Done()
 			<-start
 			c.Guard("Serve", func() {
-				errs[k] = p.S.Serve(xmpp.HandlerFunc(func(xmlstream.TokenReadEncoder, *xml.StartElement) error { return nil }))
+				errs[k] = p.S.Serve(handler)
 			})
 		}()
 	}
@@ -89,6 +133,12 @@ func runMulti(c *core.Case) {
 				return
 			}
 			seen[id]++
+			own := e.Child("urn:c07:multi", "answer") != nil
+			wantOwn := shared && (strings.HasSuffix(id, "0") || strings.HasSuffix(id, "2") || strings.HasSuffix(id, "5") || strings.HasSuffix(id, "7"))
+			if own != wantOwn {
+				c.Violate("multi:reply:wrong-author", "session %d of %d served concurrently through one multiplexer: the reply to %q is %s (handler answered it itself: %v)", k, n, id, e, wantOwn)
+				return
+			}
 		}
 		for i := 0; i < m; i++ {
 			id := fmt.Sprintf("s%d-%d", k, i)
@@ -99,5 +149,8 @@ func runMulti(c *core.Case) {
 		}
 		c.Count("multi_session_requests_answered", m)
 	}
-	c.Sig("multi|n=%d", n)
+	if shared {
+		c.Count("multi_session_handler_calls_overlapping_another_sessions_call", int(atomic.LoadInt64(&overlapped)))
+	}
+	c.Sig("multi|n=%d|shared=%v", n, shared)
 }
